@@ -304,10 +304,16 @@ def run_shard(ctx):
         if q:
             import hashlib
 
-            pick = sorted(names, key=lambda n: hashlib.sha256(f"{ctx.seed}/{n}".encode()).hexdigest())[:4] + ["TPMS_AUTH_COMMAND", "TPMT_PUBLIC"]
+            rank = lambda n: hashlib.sha256(f"{ctx.seed}/{n}".encode()).hexdigest()  # noqa: E731
+            # type names that other registered types derive from: a query for X must not list the derived types' examples
+            bases = sorted(n for n, t in O._REGISTRY.items() if n in L.snap["primitives"] or n in L.snap["structs"] if any(u is not t and isinstance(u, type) and issubclass(u, t) for u in O._REGISTRY.values()))
+            bases = [n for n in bases if L.snap["structs"].get(n, {}).get("kind") != "union"]
+            pick = sorted(names, key=rank)[:3] + sorted(bases, key=rank)[:2] + sorted(["TPMS_AUTH_COMMAND", "TPMT_PUBLIC", "TPMS_PCR_SELECTION", "TPMT_HA"], key=rank)[:1]
         else:
             structs = sorted(n for n, s in L.snap["structs"].items() if s["kind"] != "union" and n != "TPM2B_ENCRYPTED_PARAM")
-            pick = names + structs[:: max(1, len(structs) // 40)]
+            bases = sorted(n for n, t in O._REGISTRY.items() if n in L.snap["primitives"] or n in L.snap["structs"] if any(u is not t and isinstance(u, type) and issubclass(u, t) for u in O._REGISTRY.values()))
+            bases = [n for n in bases if L.snap["structs"].get(n, {}).get("kind") != "union"]
+            pick = names + structs[:: max(1, len(structs) // 40)] + bases
         for name in ctx.mine(pick):
             ctx.run_plain(lambda name=name: example_case(ctx, L, cli, name), f"example:{name}")
     finally:
